@@ -17,12 +17,14 @@ def _shard(args):
     intern = obs.Interner()
     traces, scripts = [], {}
     for tid, seed, prog, variant, nsteps in specs:
+        sweep = variant >= 100   # 100 + v: systematic layout-only edits on layout variant v, every cache warm
+        variant %= 100
         src = layouts.variant(PROGRAMS[prog], variant, seed)
         tight = variant in (2, 8)  # redundant-parentheses / tight layouts: exercise par()/unpar() much more
         tr = c02_hist.run_lockstep(rec, intern, tid, seed, src, nsteps, npat, misc_p=0.5 if tight else 0.2,
-                                   unpar_p=0.7 if tight else 0.3)
-        scripts[tid] = {'driver': 'c02_lockstep', 'prog': prog, 'variant': variant, 'seed': seed, 'nsteps': nsteps,
-                        'npat': npat, 'script': tr.pop('script')}
+                                   unpar_p=0.7 if tight else 0.3, sweep=sweep)
+        scripts[tid] = {'driver': 'c02_lockstep', 'prog': prog, 'variant': variant + (100 if sweep else 0),
+                        'seed': seed, 'nsteps': nsteps, 'npat': npat, 'script': tr.pop('script')}
         traces.append(tr)
     return dict(rec.tab.dump(), traces=traces, queries=list(obs.QUERIES)), scripts
 
@@ -85,8 +87,14 @@ def run(ctx):
     from harness import layouts
     n_hist, n_steps, npat = (240, 6, 2) if ctx.quick else (4000, 12, 3)
     rng = random.Random(ctx.seed * 7919 + 5)
-    specs = [(i + 1, rng.randrange(1 << 30), i % len(PROGRAMS), (i // len(PROGRAMS)) % layouts.N_VARIANTS, n_steps)
+    specs = [(i + 1, rng.randrange(1 << 30), i % len(PROGRAMS), (i // len(PROGRAMS) + i) % layouts.N_VARIANTS, n_steps)
              for i in range(n_hist)]
+    # systematic layout-only edits (line comments on block-ending statements, docstrings) with every cache warm, on the
+    # comment-bearing layouts (1) and as written (0); thorough: every layout variant
+    sweep_variants = (1, 0) if ctx.quick else tuple(range(layouts.N_VARIANTS))
+    for v in sweep_variants:
+        for pi in range(len(PROGRAMS)):
+            specs.append((len(specs) + 1, rng.randrange(1 << 30), pi, 100 + v, 7 if ctx.quick else 12))
     _run(ctx, specs, npat)
     ctx.require_clauses(['ObsEq', 'Links', 'ViewsFollow', 'HistoryIndependent.answers'])
 
